@@ -1,9 +1,4 @@
 package vh
 
-// placeholders filled in by iter.go / crash.go
-type shadowFS struct{}
-
-func (s *shadowFS) fileEvent(kind, path string, data []byte, n int64) {}
-func (s *shadowFS) fsEvent(kind, a, b string)                        {}
-func (r *EngineRunner) execIter(f []string) string                    { return "err unknown-op" }
-func (r *EngineRunner) execCrash(f []string) string                   { return "err unknown-op" }
+// placeholder filled in by iter.go
+func (r *EngineRunner) execIter(f []string) string { return "err unknown-op" }
